@@ -159,6 +159,8 @@ class _CompositePersistence(AbstractPersistence):
         self._file = file_pers
         self._rebench_db = rebench_db
         self._closed = False
+        # the runs are registered with the composite, the file persistence selects its runs by it
+        file_pers.registered_as = self
 
     def load_data(self, runs, discard_run_data):
         start_time = self._file.load_data(runs, discard_run_data)
@@ -226,6 +228,8 @@ class _FilePersistence(_ConcretePersistence):
 
         self._data_filename = data_filename
         self._file = None
+        # what the runs recorded by this file know it as (itself, or a composite it is part of)
+        self.registered_as = self
         if configurator.discard_old_data:
             self._discard_old_data()
         self._lock = Lock()
@@ -273,7 +277,7 @@ class _FilePersistence(_ConcretePersistence):
         Loads the data from the configured data file
         """
         if discard_run_data:
-            current_runs = {run for run in runs if run.is_persisted_by(self)}
+            current_runs = {run for run in runs if run.is_persisted_by(self.registered_as)}
         else:
             current_runs = None
 
